@@ -33,6 +33,11 @@ type Decoded struct {
 	ParseErr   bool
 	ParseDiags []string
 	Panic      string
+	// MergeNest: the same files merged step by step (a body that is itself a merged body
+	// passed to MergeBodies again, to the left or to the right of the others) decode
+	// differently from the files merged in one call; empty if they agree.
+	MergeNest        string
+	MergeNestDecoder string
 }
 
 func diagSummaries(d hcl.Diagnostics) []string {
@@ -99,6 +104,44 @@ func Decode(s *Schema, r *Rendered) (d *Decoded) {
 	d.GoVal = target.Elem().Interface()
 	d.GoErr = gdiags.HasErrors()
 	d.GoDiags = diagSummaries(gdiags)
+
+	if len(files) >= 2 {
+		var bodies []hcl.Body
+		for _, f := range files {
+			bodies = append(bodies, f.Body)
+		}
+		// left: ((f0 f1) f2 ... ) then one more (empty) body behind it; right: f0 (f1 ( ... ))
+		left := hcl.MergeBodies(bodies[:2])
+		for _, b := range bodies[2:] {
+			left = hcl.MergeBodies([]hcl.Body{left, b})
+		}
+		left = hcl.MergeBodies([]hcl.Body{left, hcl.EmptyBody()})
+		right := hcl.MergeBodies(bodies[len(bodies)-2:])
+		for i := len(bodies) - 3; i >= 0; i-- {
+			right = hcl.MergeBodies([]hcl.Body{bodies[i], right})
+		}
+		right = hcl.MergeBodies([]hcl.Body{hcl.EmptyBody(), right, hcl.EmptyBody()})
+		for _, alt := range []struct {
+			name string
+			b    hcl.Body
+		}{{"left-nested", left}, {"right-nested", right}} {
+			ab := alt.b
+			if r.Expand {
+				ab = dynblock.Expand(ab, ctx)
+			}
+			v2, dg2 := hcldec.Decode(ab, s.Spec, ctx)
+			if dg2.HasErrors() != d.DecErr || (!d.DecErr && !v2.RawEquals(d.DecVal)) {
+				d.MergeNest, d.MergeNestDecoder = alt.name, "hcldec"
+				break
+			}
+			t2 := reflect.New(s.GoType)
+			g2 := gohcl.DecodeBody(ab, ctx, t2.Interface())
+			if g2.HasErrors() != d.GoErr || (!d.GoErr && !reflect.DeepEqual(t2.Elem().Interface(), d.GoVal)) {
+				d.MergeNest, d.MergeNestDecoder = alt.name, "gohcl"
+				break
+			}
+		}
+	}
 	return d
 }
 
@@ -138,6 +181,10 @@ func Compare(s *Schema, orig, rw *Decoded, skipGohclValue bool) []Mismatch {
 				fmt.Sprintf("panic differs: original %q, rewrite %q", orig.Panic, rw.Panic)})
 		}
 		return out
+	}
+	if rw.MergeNest != "" && !rw.ParseErr {
+		out = append(out, Mismatch{"merge-nesting", rw.MergeNestDecoder, rw.MergeNest,
+			"the files merged step by step (" + rw.MergeNest + ") decode differently from the same files merged in one MergeFiles call"})
 	}
 	if orig.hasErrDec() != rw.hasErrDec() {
 		out = append(out, errMismatch("hcldec", orig.hasErrDec(), append(orig.ParseDiags, orig.DecDiags...), append(rw.ParseDiags, rw.DecDiags...)))
